@@ -910,3 +910,21 @@ _run_c04_prev = run
 def run(res, facts, tier):
     _run_c04_prev(res, facts, tier)
     r5c_writer_policy(res, facts)
+
+
+_run_c04_prev_stream = run
+
+
+def run(res, facts, tier):
+    _run_c04_prev_stream(res, facts, tier)
+    from . import c04_stream
+    c04_stream.run_rule(res, facts, tier)
+
+
+_run_c04_prev_order = run
+
+
+def run(res, facts, tier):
+    _run_c04_prev_order(res, facts, tier)
+    from . import c04_order
+    c04_order.run_rule(res, facts, tier)
